@@ -7,7 +7,8 @@ Case payloads (space separated fields):
 
 * `D <n> <bos><boe> <bpops> <script> <timing> <seed> <trace> <prog-hex>` — `n` threads run the
   same program (visit trace `<trace>`), break points after the edits `<bpops>`, every thread's
-  suspensions are answered from `<script>`. Result `same=1 susp=<lines of thread 1>|<thread 2>…`.
+  suspensions are answered from `<script>`. Result `same=1 vis=1 susp=<lines of thread 1>|<thread 2>…`
+  (`vis`: every evaluated literal node is announced to the debugger — what the model's visit trace assumes).
   `timing`, `seed` and the program text do not enter the model: by `no_lost_resume` /
   `continue_releases` the timing of a Continue is irrelevant, by `observer_only` so is the program.
 * `K <n> <bpops> <trace> <prog-hex>` — `n` threads, each suspension is answered by `StopThreads`.
@@ -77,21 +78,6 @@ def flagsOf (s : String) : Bool × Bool :=
 def showLines (ls : List Loc) : String :=
   if ls.isEmpty then "-" else ".".intercalate (ls.map fun l => toString l.line)
 
-/-- number of visits that passed a line with an active break point while a step-over /
-step-out was pending (see `stepping_passes_breakpoints`) -/
-def skippedBps (r : Run) (t : List Ev) : Nat :=
-  let rec go (r : Run) (t : List Ev) (k : Nat) : Nat :=
-    match t with
-    | [] => k
-    | e :: rest =>
-      let r' := stepEv r e
-      let k := match e, r.d.is with
-        | .visit l, some is =>
-          if is.cmd = Cmd.stepOut && bpActive r.d.bps l && !r.killed && !r.crashed then k + 1 else k
-        | _, _ => k
-      go r' rest k
-  go r t 0
-
 def setup (flags bpops : String) : Option Dbg := do
   let (bos, boe) := flagsOf flags
   let ops ← (list bpops ",").mapM parseOp
@@ -102,16 +88,13 @@ def caseD (f : List String) : String :=
   | [n, flags, bpops, script, _timing, _seed, trace, _prog] =>
     match natOf n, setup flags bpops, (list script ",").mapM parseAct, (list trace ",").mapM parseEv with
     | some n, some d, some sc, some t =>
-      let r0 := Run.init d sc
-      let r := runTrace r0 t
+      let r := runTrace (Run.init d sc) t
       if r.crashed then "MODEL-CRASH"
       else
         let one := showLines r.susp
         let all := "|".intercalate (List.replicate n one)
-        let sk := skippedBps r0 t
-        "same=1 susp=" ++ all ++ (if r.killed then " killed" else "")
+        "same=1 vis=1 susp=" ++ all ++ (if r.killed then " killed" else "")
           ++ (if r.susp.isEmpty then "" else "\tnt=1")
-          ++ (if sk > 0 then s!"\tskipbp={sk}" else "")
     | _, _, _, _ => "bad-payload"
   | _ => "bad-payload"
 
